@@ -2,12 +2,18 @@ import DosModel.Model.P2PSym
 import DosModel.Model.ConnSym
 import DosModel.Model.ConnTableCfg
 import DosModel.Model.P2PSubCfg
+import DosModel.Model.P2PHandshake
 import DosModel.Gen.P2PFlow
 def c16Step (line : String) : String :=
   match Dos.words line with
   | ["hist", script] =>
     Dos.ConnSym.stepHist ⟨Dos.ConnTable.Cfg.code, Dos.Gen.decodeChecksAnything, Dos.Gen.runKeepsDrainingErrors⟩ script
   | ["sub", _sync, ops] => Dos.P2PSub.stepSub Dos.P2PSub.Cfg.code Dos.P2PSub.registry ops
+  | ["hs", idHex, kind] => Dos.P2PHandshake.stepHs idHex kind
+  | ["hsmitm", n] =>
+    match n.toNat? with
+    | some n => Dos.P2PHandshake.stepHsMitm Dos.Gen.decodeChecksAnything Dos.Gen.runKeepsDrainingErrors n
+    | none => "bad-op"
   | ["reg"] =>
     "reg " ++ String.intercalate "," ((Dos.Gen.registeredTypes.filter fun (_, _, _, _, linked) => linked).map fun (p, _, _, _, _) => p)
   | _ => Dos.P2PSym.driverStep Dos.Gen.decodeChecksAnything Dos.Gen.runKeepsDrainingErrors line
